@@ -42,8 +42,10 @@ theorem bindLabel_cfg (h : Holder) (id toSec toOff : Nat) : (h.bindLabel id toSe
     · rfl
     · split
       · rfl
-      · show ((resolveFixups _ toSec toOff le.fixups).1).cfg = h.cfg
-        rw [resolveFixups_cfg]; rfl
+      · split
+        · rfl
+        · show ((resolveFixups _ toSec toOff le.fixups).1).cfg = h.cfg
+          rw [resolveFixups_cfg]; rfl
 
 theorem asmBind_cfg (h : Holder) (c : Cur) (id : Nat) : (asmBind h c id).1.cfg = h.cfg := bindLabel_cfg h id c.sec c.off
 
